@@ -17,7 +17,8 @@ def suite():
     fails = re.findall(r"FAIL \[.*?\] \(.*?\) (\S+ \S+)", out)
     return (int(m.group(2)) if m else -1), sorted(set(fails)), out[-1500:] if not m else ""
 def demo():
-    rc, out = run(["cargo", "test", "--offline", "--test", "zz_demo", "--", "--test-threads", "4"], timeout=600)
+    feat = os.environ.get("CONFIRM_FEATURES", "").split()
+    rc, out = run(["cargo", "test", "--offline"] + feat + ["--test", "zz_demo", "--", "--test-threads", "4"], timeout=600)
     m = re.search(r"test result: (\w+)\. (\d+) passed; (\d+) failed", out)
     return (m.group(1), int(m.group(2)), int(m.group(3))) if m else ("build-error" if rc != 124 else "timeout", 0, 0), out[-1200:]
 res = {"src": src}
